@@ -10,7 +10,7 @@ PROP = {
     "rule": "cases = G-valid(v) programs, v in 5.1..5.5 (60%), one of 12 grammar-breaking mutations of such a program (30%), a construct of a newer version in front of a valid program (10%); "
             "3 layouts (pretty / compact / random whitespace and comments); distinct = FNV of the multiset of grammar productions used (+ version, + mutation); "
             "non-trivial = >= 12 distinct productions",
-    "min_nontrivial": {"quick": 4000, "thorough": 100000},
+    "min_nontrivial": {"quick": 3000, "thorough": 80000},
     "max_secs": {"quick": 75, "thorough": 1100},
     "require_clauses": ["valid-parse", "valid-diag", "invalid-rejected", "newer-feature-rejected", "luars-agrees",
                         "version:5.1", "version:5.2", "version:5.3", "version:5.4", "version:5.5"],
